@@ -54,6 +54,10 @@ def witness_search(tier, seed):
 from pyvc.xcheck import MsdTextProbe   # noqa: E402
 THOROUGH_BOUNDED = [MsdTextProbe()]
 
+# tables the statement pins down by value (props/constants_common.py)
+from props.constants_common import ClosedConstants   # noqa: E402
+UNITS = list(UNITS) + [ClosedConstants('sm-chart-fields', 'multi-value-properties')]
+
 
 # supplier units (see props/suppliers.py): the strict parse of the statement goes through loads / load / the constructor
 from props import suppliers as _S   # noqa: E402
